@@ -397,7 +397,8 @@ def configs(tier):
     out = []
 
     def add(dw, aw, subs, **kw):
-        out.append(dict(dw=dw, aw=aw, subs=subs, depth=depth, **kw))
+        kw.setdefault("depth", depth)
+        out.append(dict(dw=dw, aw=aw, subs=subs, **kw))
 
     for dw in (8, 16, 32):
         lanes = dw // 8
